@@ -204,6 +204,31 @@ def entries_forward(ctx, R, rule):
                "return-callee-result", where=pat.where(t))
 
 
+def entry_forwards_inputs(ctx, R, rule):
+    """The x-space entry hands the caller's point (and every other input) to the sampling routine as it received it: each argument of
+    that call is one of the entry's own parameters or a field of `self`, not a value computed in between (a clamped / re-collected
+    copy of the point would make every coordinate-level statement about `sample` a statement about something else)."""
+    try:
+        e1, s = R.xspace_entry(), R.sample()
+    except RoleLost as ex:
+        return ctx.lost(rule, str(ex))
+    ctx.fn(e1.path)
+    v = Vals(e1)
+    sites = [(bi, t) for bi, t, cb in R.local_callees(e1) if cb is s]
+    if len(sites) != 1:
+        return ctx.lost(rule, "single call of %s in %s" % (s.path, e1.path), e1.path)
+    bi, t = sites[0]
+    bad = []
+    for i, a in enumerate(t["args"]):
+        if a.get("k") == "const":
+            continue
+        r = v.root(a)
+        if r.kind != "arg":
+            bad.append("argument %d is %r" % (i, r))
+    ctx.ob(rule, "%s passes its inputs (point, edge data, settings, table) to the sampling routine unmodified" % norm_path(e1.path), not bad, e1.path,
+           "entry-forwards-inputs", where=pat.where(t), detail="; ".join(bad))
+
+
 # ---- loops and commutative reducers -------------------------------------------------------------
 def loop_next_sites(body, v):
     """[(next_call_bb, switch_bb, some_target, none_target, term)] for `match Iterator::next(&mut it)` loop heads."""
